@@ -157,11 +157,34 @@ def runK (cap : CapFn) : KeyState → List (Req κ) → List (Event κ)
   | _, [] => []
   | s, r :: rs => let (s', p) := tryInc cap r.t r.wd s; ⟨r.key, r.t, r.wd, p⟩ :: runK cap s' rs
 
-/-- `RateLimitState.Counters()` at instant `now`: every key's `Counter()` (which calls
-    `ensureWindowIsUpdated` with the stored window data, i.e. it MUTATES). -/
-def countersL (now : Nat) (st : State κ) : State κ × List (κ × Nat) :=
-  let st' := st.map fun (k, s) => (k, ensure now s)
-  (st', st'.map fun (k, s) => (k, s.counter))
+/-- `RateLimitState.Counters()` at instant `now`: every key's `Counter()`.  After the repair fix F09d it only
+    READS: 0 when the stored window is over, else the stored counter (before, it called
+    `ensureWindowIsUpdated` and so moved windows and credited spill-over from a metrics scrape). -/
+def countersL (now : Nat) (st : State κ) : List (κ × Nat) :=
+  st.map fun (k, s) => (k, if s.windowEnd ≤ now then 0 else s.counter)
+
+/-- Operations on the limiter: a request, or a metrics scrape at an instant. -/
+inductive Op (κ : Type) where
+  | req (r : Req κ)
+  | scrape (t : Nat)
+deriving Repr
+
+/-- One operation: new state, the limiter event (requests only), the scrape output (scrapes only). -/
+def stepOp (cap : CapFn) (st : State κ) : Op κ → State κ × Option (Event κ) × List (κ × Nat)
+  | .req r => ((stepL cap st r).1, some (stepL cap st r).2, [])
+  | .scrape t => (st, none, countersL t st)
+
+/-- Limiter events of a run of requests interleaved with scrapes; oldest first. -/
+def runOps (cap : CapFn) : State κ → List (Op κ) → List (Event κ)
+  | _, [] => []
+  | st, o :: os =>
+    (match (stepOp cap st o).2.1 with | some e => [e] | none => []) ++ runOps cap (stepOp cap st o).1 os
+
+/-- The requests among the operations. -/
+def reqsOf : List (Op κ) → List (Req κ)
+  | [] => []
+  | .req r :: os => r :: reqsOf os
+  | .scrape _ :: os => reqsOf os
 
 end Limiter
 
